@@ -24,6 +24,7 @@ REGISTRY = {
     "C20": ("checks.controla_checks", "c20"),
     # supplementary models beyond the listed properties (not in MANIFEST.checks)
     "S01": ("checks.extra_checks", "s01"),
+    "S02": ("checks.extra_checks", "s02"),
     "C04": ("checks.arith_checks", "c04"),
     "C05": ("checks.arith_checks", "c05"),
     "C12": ("checks.controlb_checks", "c12"),
